@@ -225,6 +225,16 @@ def run(rep: Report) -> None:
             rep.check("R18.2", "LogarithmicUnit.level:log-argument", dimless,
                       f"the logarithm is taken of a number expressed in {describe(a.unit_type()) if isinstance(a, NumV) else '?'}: "
                       "the quantity is not converted into the reference's unit before the ratio", fi.where(e.node))
+        # the conversion is applied to the quantity itself - a point on its scale - not to something derived from it: converting the
+        # *ratio* q/ref instead is the same number for proportional units and a different one for a scale with a zero point
+        # ((400 degC).level(dBK) gives 21.03 dB instead of 28.28)
+        convs = [e for e in r.events if e.kind == "in_unit"]
+        if convs:
+            direct = any(isinstance(e.data.get("q"), QuantV) and e.data["q"].mag.rat == q.mag.rat and e.data["q"].unit.same(q.unit)
+                         and e.data["unit"].same(me.reference.unit) for e in convs)
+            rep.check("R18.2", "LogarithmicUnit.level:converts-the-quantity", direct,
+                      "level() converts something other than the given quantity into the reference's unit (a ratio or product already formed): a zero-point "
+                      "offset is then applied to a ratio ((400 degC).level(dBK) gives 21.03 dB instead of 28.28)", fi.where(convs[0].node))
     if n == 0:
         raise AnalysisError("LogarithmicUnit.level: no return analysed")
 
